@@ -18,12 +18,12 @@ C_RD_PGET(StringReader_pget_s8)
 #include "contracts/C05_json.h"
 
 int verif_exc;
-size_t g_len, g_off, g_mk, g_vk, g_sk, g_cmk;
+size_t g_len, g_off, g_mk, g_vk, g_sk;
 uint8_t g_b0, g_b1, g_b2, g_b3, g_b4, g_b5, g_b6, g_b7;
-size_t g_wk;
+size_t g_wk, g_nw, g_nwx;
 struct c05_skip_ghost g_w;
 struct c05_ghost g_j;
 
 #define IN_BYTES uint8_t in_b0, in_b1, in_b2, in_b3, in_b4, in_b5, in_b6, in_b7; g_b0 = in_b0; g_b1 = in_b1; g_b2 = in_b2; g_b3 = in_b3; \
                  g_b4 = in_b4; g_b5 = in_b5; g_b6 = in_b6; g_b7 = in_b7
-#define IN_COMMON IN_BYTES; size_t in_wk, in_sk, in_cmk; g_wk = in_wk; g_sk = in_sk; g_cmk = in_cmk
+#define IN_COMMON IN_BYTES; size_t in_wk, in_sk, in_cmk; g_wk = in_wk; g_sk = in_sk; g_j.cmk = in_cmk
